@@ -37,6 +37,9 @@ def make_device(d, rng):
         _base = latf
         latf = lambda n, line, _b=_base, _s=slow: _b(n, line) + (_s["extra"] if line == _s["cmd"] else 0.0)  # noqa: E731
     chunk = d.pop("chunk", None)
+    split_crlf = d.pop("split_crlf", False)
+    if split_crlf and not chunk:
+        chunk = 1
     chunker = None
     if chunk:
         r2 = random.Random(chunk)
@@ -46,6 +49,9 @@ def make_device(d, rng):
                 return [data]
             k = r2.randint(1, min(4, len(data) - 1))
             cuts = sorted(r2.sample(range(1, len(data)), k))
+            if split_crlf:
+                # a serial line delivers bytes as they come: here every line's CR and LF arrive in separate reads (and nothing else is cut)
+                cuts = [len(data) - 1] if data.endswith(b"\r\n") else []
             out, pos = [], 0
             for c in cuts + [len(data)]:
                 out.append(data[pos:c])
